@@ -55,7 +55,11 @@ func vpAllLayoutsOverrun(typ int, b []byte) bool {
 func vpH_C19_detect__3(c int) {
 	typ := c + 1
 	secret := vpBytesN(vpInt(0, vpBound("secret", 2)))
-	clear := vpBytesN(vpInt(0, vpBound("c19bytes", 10)))
+	nmax := vpBound("c19bytes", 10)
+	if typ == 2 {
+		nmax += vpBound("c19authorextra", 2) // room for argument-length octets behind the fixed part
+	}
+	clear := vpBytesN(vpInt(0, nmax))
 	if typ == 2 && len(clear) > 7 {
 		vpAssume(clear[7] <= uint8(vpBound("c19args", 2)))
 	}
